@@ -452,6 +452,8 @@ struct SuspState {
     /// the sender's thread has nothing left to do while its send is suspended (it is parked now)
     idle: Vec<bool>,
     finished: Vec<Option<bool>>,
+    /// the sender's thread has done everything it was meant to do (its send and all of its same-thread operations)
+    thread_done: Vec<bool>,
     release: bool,
 }
 
@@ -482,7 +484,7 @@ fn suspend_body(p: &SuspendParams) {
     let key = |oracle: &str| format!("suspend/{}/{}", kind_name, oracle);
     let ch: ChanArc = Arc::new(chan::make::<Tracked>(kind, p.buffer, p.max_streams, "unused"));
     let shared = Arc::new(HLock::new(Shared { events: vec![], producers_active: 0 }));
-    let state = Arc::new(HLock::new(SuspState { suspended_now: vec![false; p.suspended.len()], idle: vec![false; p.suspended.len()], finished: vec![None; p.suspended.len()], release: false }));
+    let state = Arc::new(HLock::new(SuspState { suspended_now: vec![false; p.suspended.len()], idle: vec![false; p.suspended.len()], finished: vec![None; p.suspended.len()], thread_done: vec![false; p.suspended.len()], release: false }));
     let mut drivers = vec![];
     let mut driver_handles = vec![];
     for s in 0..p.streams {
@@ -587,6 +589,7 @@ fn suspend_body(p: &SuspendParams) {
                     return;
                 }
             }
+            state2.lock().unwrap().thread_done[i] = true;
         }));
     }
     // ---- wait until the long suspensions are in place (so that the other threads really run against a suspended send)
@@ -637,9 +640,10 @@ fn suspend_body(p: &SuspendParams) {
             panic!("harness: a suspended sender's thread never finished its own work");
         }
     }
-    // short suspensions finish by themselves
+    // short suspensions finish by themselves -- and so does whatever their threads were still meant to send afterwards
+    // (the verdict below must not be taken while such a send is in flight: its wake-up would still be on its way)
     let mut rounds = 0u32;
-    while p.suspended.iter().enumerate().any(|(i, s)| matches!(s, Suspension::Polls(_)) && state.lock().unwrap().finished[i].is_none()) {
+    while p.suspended.iter().enumerate().any(|(i, s)| matches!(s, Suspension::Polls(_)) && !state.lock().unwrap().thread_done[i]) {
         if ctx::aborted() {
             return;
         }
